@@ -58,13 +58,17 @@ func dirEq(a, b p9p.Dir) bool {
 }
 
 // listing: the entries, their encodings, and the script of the underlying iterator.
+// a directory is a qid with the QTDIR bit, whatever other type bits it carries
+var dirTypes = []p9p.QType{p9p.QTDIR, p9p.QTDIR | p9p.QTTMP, p9p.QTDIR | p9p.QTAPPEND, p9p.QTDIR | p9p.QTEXCL, p9p.QTDIR | p9p.QTMOUNT, p9p.QTDIR | 0x7f}
+
 type listing struct {
-	dirs    []p9p.Dir
-	enc     [][]byte
-	batches []int // k >= 0: the next k entries; -1: the iterator fails
-	maxEnc  int
-	clean   bool // no error batch before the end of the listing
-	nlisted int  // entries before the first empty batch / the end of the script
+	rootType p9p.QType // qid type of the directory being listed
+	dirs     []p9p.Dir
+	enc      [][]byte
+	batches  []int // k >= 0: the next k entries; -1: the iterator fails
+	maxEnc   int
+	clean    bool // no error batch before the end of the listing
+	nlisted  int  // entries before the first empty batch / the end of the script
 }
 
 var errScripted = errors.New("scripted iterator failure")
@@ -81,7 +85,7 @@ func genListing(rng *prng.R, allowErr bool) *listing {
 	default:
 		n, maxStr = rng.Range(100, 300), rng.Pick(10, 100, 300)
 	}
-	l := &listing{clean: true}
+	l := &listing{clean: true, rootType: dirTypes[rng.Intn(len(dirTypes))]}
 	for i := 0; i < n; i++ {
 		d := genDir(rng, maxStr)
 		b, err := codec.Marshal(d)
@@ -353,6 +357,7 @@ func runRd(r *rep.Report, rng *prng.R) {
 // fakeSess serves exactly what the client directory iterator needs.
 type fakeSess struct {
 	rd       *p9p.Readdir
+	qtype    p9p.QType
 	iounit   uint32
 	msize    int
 	eofStyle bool
@@ -366,7 +371,7 @@ func (s *fakeSess) Auth(ctx context.Context, afid p9p.Fid, uname, aname string) 
 	return p9p.Qid{}, errNo
 }
 func (s *fakeSess) Attach(ctx context.Context, fid, afid p9p.Fid, uname, aname string) (p9p.Qid, error) {
-	return p9p.Qid{Type: p9p.QTDIR, Path: 1}, nil
+	return p9p.Qid{Type: s.qtype, Path: 1}, nil
 }
 func (s *fakeSess) Clunk(ctx context.Context, fid p9p.Fid) error  { return nil }
 func (s *fakeSess) Remove(ctx context.Context, fid p9p.Fid) error { return nil }
@@ -389,7 +394,7 @@ func (s *fakeSess) Write(ctx context.Context, fid p9p.Fid, p []byte, offset int6
 }
 func (s *fakeSess) Open(ctx context.Context, fid p9p.Fid, mode p9p.Flag) (p9p.Qid, uint32, error) {
 	s.openFid = fid
-	return p9p.Qid{Type: p9p.QTDIR, Path: 1}, s.iounit, nil
+	return p9p.Qid{Type: s.qtype, Path: 1}, s.iounit, nil
 }
 func (s *fakeSess) Create(ctx context.Context, parent p9p.Fid, name string, perm uint32, mode p9p.Flag) (p9p.Qid, uint32, error) {
 	return p9p.Qid{}, 0, errNo
@@ -478,7 +483,7 @@ func runCl(r *rep.Report, rng *prng.R) {
 	if iounit == 0 {
 		iounit = 1
 	}
-	s := &fakeSess{rd: p9p.NewReaddir(codec, l.readNext()), eofStyle: rng.Bool()}
+	s := &fakeSess{rd: p9p.NewReaddir(codec, l.readNext()), eofStyle: rng.Bool(), qtype: l.rootType}
 	if rng.Bool() {
 		s.iounit, s.msize = uint32(iounit), 65536
 	} else {
@@ -524,7 +529,7 @@ func (f *scriptFS) Auth(ctx context.Context, uname, aname string) (p9p.AuthFile,
 func (f *scriptFS) Attach(ctx context.Context, uname, aname string, af p9p.AuthFile) (p9p.Dirent, error) {
 	return scriptRoot{f.l}, nil
 }
-func (e scriptRoot) Qid() p9p.Qid { return p9p.Qid{Type: p9p.QTDIR, Path: 1} }
+func (e scriptRoot) Qid() p9p.Qid { return p9p.Qid{Type: e.l.rootType, Path: 1} }
 func (e scriptRoot) OpenDir(ctx context.Context) (p9p.ReadNext, error) {
 	return e.l.readNext(), nil
 }
@@ -675,7 +680,7 @@ func main() {
 	r := rep.Open()
 	defer r.Close()
 	log.SetOutput(io.Discard)
-	r.Rule = "rd: random listings (0..300 entries, string fields 0..300 bytes, batches of 1..50, optional iterator error / early empty batch) on NewReaddir/NewFixedReaddir, read with count sequences mixing the largest entry size, +1, large, random, and below-premise counts, with reads at wrong offsets interleaved; cl: the CFileSys directory iterator over a session serving a real Readdir with a chosen iounit; e2e: CFileSys->CSession->conn->ServeConn->SFileSys(scripted FS) over a negotiated msize. Non-trivial: a non-empty listing with at least one read; distinct by canonical case text."
+	r.Rule = "rd: random listings (0..300 entries, string fields 0..300 bytes, batches of 1..50, optional iterator error / early empty batch) on NewReaddir/NewFixedReaddir, read with count sequences mixing the largest entry size, +1, large, random, and below-premise counts, with reads at wrong offsets interleaved; cl: the CFileSys directory iterator over a session serving a real Readdir with a chosen iounit; e2e: CFileSys->CSession->conn->ServeConn->SFileSys(scripted FS) over a negotiated msize; the listed directory's qid type is drawn from {QTDIR, QTDIR|QTTMP, QTDIR|QTAPPEND, QTDIR|QTEXCL, QTDIR|QTMOUNT, QTDIR|0x7f}. Non-trivial: a non-empty listing with at least one read; distinct by canonical case text."
 	rng := prng.New(r.Seed)
 	nrd, ncl, ne2e := r.N(800, 20000), r.N(300, 4000), r.N(100, 2000)
 	for i := 0; i < nrd; i++ {
